@@ -300,7 +300,7 @@ search:
 		rf.Note = "observed, not reproduced"
 		dir := filepath.Join(e.VerifDir, "replays")
 		_ = os.MkdirAll(dir, 0o755)
-		path := filepath.Join(dir, fmt.Sprintf("C19-seed%d-%s-%d.json", e.Seed, world, idx))
+		path := filepath.Join(dir, fmt.Sprintf("C19-seed%d-%s-%d-builds.json", e.Seed, world, idx))
 		if err := rf.Save(path); err != nil {
 			return "", v, harnessErr("write replay: %v", err)
 		}
@@ -328,7 +328,7 @@ search:
 	rf.Violation = v
 	dir := filepath.Join(e.VerifDir, "replays")
 	_ = os.MkdirAll(dir, 0o755)
-	path := filepath.Join(dir, fmt.Sprintf("C19-seed%d-%s-%d.json", e.Seed, world, idx))
+	path := filepath.Join(dir, fmt.Sprintf("C19-seed%d-%s-%d-builds.json", e.Seed, world, idx))
 	if err := rf.Save(path); err != nil {
 		return "", v, harnessErr("write replay: %v", err)
 	}
